@@ -51,6 +51,7 @@ def spell_like(d, rng):
     d['rhovalues'] = values
     for c in d['cells']:
         c['trclspell'] = '3'
+        c['ftrspell'] = '3'
         toks = []
         for key in ('mat', 'rho', 'imp', 'fill', 'u', 'trcl'):
             if key not in c['but']:
@@ -62,7 +63,7 @@ def spell_like(d, rng):
             elif key == 'imp':
                 toks.append('imp:n=%d' % c['imp'])
             elif key == 'fill':
-                toks.append('fill=%d' % c['fill'])
+                toks.append('fill=%d' % c['fill'] + (' (0 1 1)' if c['hasftr'] else ''))
             elif key == 'u':
                 toks.append('u=%d' % c['u'])
             else:
